@@ -45,6 +45,7 @@ def run(rep: Report, tier: str) -> None:
 	rule_d(rep, idx, tier)
 	rule_e(rep, idx)
 	rule_f(rep, idx, pm, tm)
+	rule_g(rep, idx, pm)
 
 
 # ---- (a) precedence ---------------------------------------------------------------------------------------------------
@@ -466,3 +467,33 @@ def rule_f(rep, idx, pm, tm) -> None:
 		prefix = data.get('aliases.lang')
 		for a in ('public', 'protected', 'private'):
 			r.check(prefix is not None and f'{prefix}#accessor.{a}' in data, f'accessor.{a}', acc.where, f'`{prefix}#accessor.{a}` missing from data/i18n.yml: members would be emitted without an access specifier')
+
+
+# ---- (g) dict-view loop binding tables ---------------------------------------------------------------------------------------------
+
+def rule_g(rep, idx, pm) -> None:
+	"""`for k in d.keys()` / `for v in d.values()` / `for k, v in d.items()` are emitted as a C++ structured binding `[a, b] : d` over (key, value) pairs.
+	Every copy of the method -> binding table must put the loop symbol first for keys and second for values."""
+	r = rep.rule('C01/dict-view-binding-table', 'every dict-view table maps keys -> [symbol, _], values -> [_, symbol], items -> symbols (C++ binds (key, value) in that order); all copies agree', floor=2)
+	tables = []
+	for name, f in pm.methods.items():
+		for n in ast.walk(f.node):
+			if isinstance(n, ast.Dict) and len(n.keys) == 3 and {unparse(k) for k in n.keys} == {'dict.items.__name__', 'dict.keys.__name__', 'dict.values.__name__'}:
+				# skip the receiver-type context table (values are reflections, not binding lists)
+				if all(isinstance(v, (ast.List, ast.Name)) for v in n.values):
+					tables.append((f, n))
+	if len(tables) < 2:
+		r.undecided('tables', (PY2CPP, 1), f'expected the dict-view binding table in proc_for_dict and on_comp_for, found {len(tables)}')
+		return
+	for f, n in tables:
+		rows = {unparse(k).split('.')[1]: v for k, v in zip(n.keys, n.values)}
+		def shape(v):
+			if isinstance(v, ast.Name):
+				return 'all'
+			if isinstance(v, ast.List) and len(v.elts) == 2:
+				return tuple('_' if const_str(e) == '_' else 'sym' for e in v.elts)
+			return '?'
+		got = {k: shape(v) for k, v in rows.items()}
+		want = {'items': 'all', 'keys': ('sym', '_'), 'values': ('_', 'sym')}
+		for k in ('items', 'keys', 'values'):
+			r.check(got.get(k) == want[k], f'{f.name}:{k}', (PY2CPP, n.lineno), f'{f.qualname}: the `{k}` row binds {got.get(k)}, but a C++ structured binding over a map yields (key, value), so `{k}` must bind {want[k]}: a loop over d.{k}() would walk the other half of each pair', unparse(n)[:160])
